@@ -111,12 +111,13 @@ def b_refr(cl, mod, H, fn):
             if im_ is not None: need += [CT(Zs[i], E) > 0 for i in range(n)]
             pre = And(cond, comp.n[k] == n)
             good = And(rho_eff > 0, E > 0, *need)
-            concl = [Not(r.errset), r.overwrites == 0]
-            if re_ is not None: concl.append(re_ == 1 - delta * rho_eff)
-            if im_ is not None: concl.append(im_ == mu * rho_eff * KI / E)
-            cl.add('C06/%s/%s/n%d/value' % (fn, k, n), ev, And(pre, good), And(*concl),
-                   '%s: Re = 1 - rho sum w_i KD (Z_i + f\'_i)/A_i / E^2, Im = rho sum w_i mu_i x 9.8663479e-9 / E; user density wins, a NIST compound supplies '
-                   'its own when density <= 0 (%s, %d elements)' % (fn, k, n), functions=[fn])
+            # real and imaginary part are separate claims (the conjunction of the two nonlinear identities was at the edge of the solver cap for n = 3)
+            parts = [('value', re_, 1 - delta * rho_eff)] if re_ is not None else []
+            if im_ is not None: parts.append(('value' if re_ is None else 'value-im', im_, mu * rho_eff * KI / E))
+            for tag, got, want in parts:
+                cl.add('C06/%s/%s/n%d/%s' % (fn, k, n, tag), ev, And(pre, good), And(Not(r.errset), r.overwrites == 0, got == want),
+                       '%s: Re = 1 - rho sum w_i KD (Z_i + f\'_i)/A_i / E^2, Im = rho sum w_i mu_i x 9.8663479e-9 / E; user density wins, a NIST compound supplies '
+                       'its own when density <= 0 (%s, %d elements)' % (fn, k, n), functions=[fn])
             cl.add('C06/%s/%s/n%d/fail' % (fn, k, n), ev, And(pre, Not(good)), And(fail_basic, zero),
                    'non-positive density (formula) / energy, or an element whose f\', atomic weight or mu is unavailable: error', functions=[fn])
     cl.add('C06/%s/unknown' % fn, ev, And(Not(comp.cd_ok), Not(comp.cdn_ok)), And(fail_basic, r.errcode() == 1, zero), 'unknown compound: INVALID_ARGUMENT', functions=[fn])
